@@ -269,6 +269,26 @@ func (e *Encoder) stdlibCall(callee *ssa.Function, cm *ssa.CallCommon, args []Va
 		c.declareFun("f64frombits", []string{c.sortOf(args[0].T)}, "F64")
 		v := Val{T: resT, S: fmt.Sprintf("(f64frombits %s)", args[0].S)}
 		return v, true
+	case (n == "fmt.Fprintf" || n == "fmt.Fprint" || n == "fmt.Fprintln") && len(cm.Args) > 0:
+		// formatted output into a *bytes.Buffer / *strings.Builder the function made an io.Writer from right here:
+		// only that buffer object changes (library model; assumes the formatted operands' String/Error/Format
+		// methods, if any, have no side effects)
+		mi, ok := cm.Args[0].(*ssa.MakeInterface)
+		if !ok {
+			return Val{}, false
+		}
+		pt, ok := mi.X.Type().Underlying().(*types.Pointer)
+		if !ok {
+			return Val{}, false
+		}
+		if ts := pt.Elem().String(); ts != "bytes.Buffer" && ts != "strings.Builder" {
+			return Val{}, false
+		}
+		use()
+		e.havocObject(st, fmt.Sprintf("(rootof %s)", e.val(mi.X).S))
+		v := e.freshVal("fprintf", resT)
+		e.assumeWT(v, pc, st)
+		return v, true
 	case n == "errors.New" || n == "fmt.Errorf":
 		use()
 		v := e.freshVal("err", resT)
